@@ -103,6 +103,13 @@ def model_result(lib, op, a):
         return solve_for(ex, [jnp["ceil"](ex, toz(a["x"]))])[0]
     if op == "pad":
         return "skip"
+    if op == "arange3":
+        A = jnp["arange"](ex, a["lo"], a["hi"], a["step"])
+        n = solve_for(ex, [A.n])[0]
+        return [n] + solve_for(ex, el(A, n)) if n else [0]
+    if op == "stack":
+        A = jnp["stack"](ex, [toz(v) for v in a["x"]], axis=0)
+        return [solve_for(ex, [A.n])[0]] + solve_for(ex, el(A, len(a["x"])))
     if op in ("argmin_nan", "argsort", "nanmax"):
         return ("axioms", op)           # axiomatic models (contracts/c18.py): the real result must satisfy the assumed axioms
     if op == "tree_leaves":
@@ -119,7 +126,11 @@ def gen(rng):
     n = rng.randint(1, 5)
     f = lambda: round(rng.uniform(-3, 3), 3)
     ints = lambda k, lo=-4, hi=9: [rng.randint(lo, hi) for _ in range(k)]
-    op = rng.choice(["clip", "where", "roll", "take", "take_arr", "dynamic_slice", "argwhere", "searchsorted", "flip", "at_set", "pymod", "floordiv_real", "round6", "interp", "max_min", "int_trunc", "ceil", "argmin_nan", "argsort", "nanmax", "tree_leaves", "tree_map_none"])
+    op = rng.choice(["clip", "where", "roll", "take", "take_arr", "dynamic_slice", "argwhere", "searchsorted", "flip", "at_set", "pymod", "floordiv_real", "round6", "interp", "max_min", "int_trunc", "ceil", "argmin_nan", "argsort", "nanmax", "tree_leaves", "tree_map_none", "arange3", "stack"])
+    if op == "arange3":
+        return op, dict(lo=rng.randint(-5, 6), hi=rng.randint(-5, 6), step=rng.choice([-3, -2, -1, -1, 1, 2, 3]))
+    if op == "stack":
+        return op, dict(x=[f() for _ in range(n)])
     if op == "clip":
         lo = f()
         return op, dict(x=f(), lo=lo, hi=lo + abs(f()))
